@@ -20,3 +20,88 @@ impl<R> ns_::NsReader<R> {
         &&& self.ns_resolver.nesting_level as int == self.reader.state.stack().len() + (if self.pending_pop { 1int } else { 0int })
     }
 }
+
+// ---- namespace resolution (Namespaces in XML 1.1, sections 5 and 6) ----
+/// abstract result of a resolution
+pub enum AbsRes { Unbound, Bound(Seq<u8>), Unknown(Seq<u8>) }
+
+impl ns_::NamespaceEntry {
+    /// the declared prefix: None for a default-namespace declaration `xmlns="..."`
+    pub open spec fn spec_prefix(&self, buf: Seq<u8>) -> Option<Seq<u8>> {
+        if self.prefix_len == 0 { None } else { Some(buf.subrange(self.start as int, self.start + self.prefix_len)) }
+    }
+    pub open spec fn spec_value(&self, buf: Seq<u8>) -> Seq<u8> {
+        buf.subrange(self.start + self.prefix_len, self.start + self.prefix_len + self.value_len)
+    }
+    /// what this declaration says about a name with the given prefix; None: it does not concern the name
+    pub open spec fn decides(&self, buf: Seq<u8>, prefix: Option<Seq<u8>>, use_default: bool) -> Option<AbsRes> {
+        match (self.spec_prefix(buf), prefix) {
+            // a default declaration and an unprefixed name: applies to elements only (never to attributes);
+            // `xmlns=""` removes the default
+            (None, None) => if use_default && self.value_len > 0 { Some(AbsRes::Bound(self.spec_value(buf))) } else { Some(AbsRes::Unbound) },
+            // the same prefix: `xmlns:p=""` makes p unknown again
+            (Some(d), Some(u)) => if d == u { if self.value_len == 0 { Some(AbsRes::Unknown(u)) } else { Some(AbsRes::Bound(self.spec_value(buf))) } } else { None },
+            _ => None,
+        }
+    }
+}
+/// the nearest declaration (the last one in document order among those in scope) that concerns the
+/// name decides; an undeclared prefix is unknown, an unprefixed name without default is unbound
+pub open spec fn spec_resolve(bs: Seq<ns_::NamespaceEntry>, buf: Seq<u8>, prefix: Option<Seq<u8>>, use_default: bool) -> AbsRes
+    decreases bs.len()
+{
+    if bs.len() == 0 {
+        match prefix { Some(p) => AbsRes::Unknown(p), None => AbsRes::Unbound }
+    } else {
+        match bs.last().decides(buf, prefix, use_default) {
+            Some(r) => r,
+            None => spec_resolve(bs.drop_last(), buf, prefix, use_default),
+        }
+    }
+}
+/// the first position from the back that decides
+pub proof fn lemma_resolve_at(bs: Seq<ns_::NamespaceEntry>, buf: Seq<u8>, prefix: Option<Seq<u8>>, use_default: bool, i: int)
+    requires 0 <= i < bs.len(), bs[i].decides(buf, prefix, use_default) is Some,
+        forall|j: int| i < j < bs.len() ==> (#[trigger] bs[j]).decides(buf, prefix, use_default) is None
+    ensures spec_resolve(bs, buf, prefix, use_default) == bs[i].decides(buf, prefix, use_default)->Some_0
+    decreases bs.len()
+{
+    if i < bs.len() - 1 {
+        assert(bs.last().decides(buf, prefix, use_default) is None);
+        lemma_resolve_at(bs.drop_last(), buf, prefix, use_default, i);
+    }
+}
+pub proof fn lemma_resolve_none(bs: Seq<ns_::NamespaceEntry>, buf: Seq<u8>, prefix: Option<Seq<u8>>, use_default: bool)
+    requires forall|j: int| 0 <= j < bs.len() ==> (#[trigger] bs[j]).decides(buf, prefix, use_default) is None
+    ensures spec_resolve(bs, buf, prefix, use_default) == (match prefix { Some(p) => AbsRes::Unknown(p), None => AbsRes::Unbound })
+    decreases bs.len()
+{
+    if bs.len() > 0 { lemma_resolve_none(bs.drop_last(), buf, prefix, use_default); }
+}
+pub open spec fn rr_view<'a>(r: ns_::ResolveResult<'a>) -> AbsRes {
+    match r {
+        ns_::ResolveResult::Unbound => AbsRes::Unbound,
+        ns_::ResolveResult::Bound(n) => AbsRes::Bound(n.0@),
+        ns_::ResolveResult::Unknown(v) => AbsRes::Unknown(v@),
+    }
+}
+pub open spec fn pfx_view<'a>(p: Option<ns_::Prefix<'a>>) -> Option<Seq<u8>> {
+    match p { Some(x) => Some(x.0@), None => None }
+}
+/// QName ::= Prefix ':' LocalPart | LocalPart : the prefix is what precedes the first ':'
+pub open spec fn spec_prefix_of(name: Seq<u8>) -> Option<Seq<u8>> {
+    if exists|i: int| first_colon(name, i) { let i = choose|i: int| first_colon(name, i); Some(name.subrange(0, i)) } else { None }
+}
+pub proof fn lemma_prefix_of(s: Seq<u8>)
+    ensures
+        forall|i: int| first_colon(s, i) ==> spec_prefix_of(s) == Some(s.subrange(0, i)),
+        (forall|j: int| 0 <= j < s.len() ==> #[trigger] s[j] != 0x3a) ==> spec_prefix_of(s) is None,
+{
+    assert forall|i: int| first_colon(s, i) implies spec_prefix_of(s) == Some(s.subrange(0, i)) by {
+        let k = choose|k: int| first_colon(s, k);
+        if k < i { assert(s[k] != 0x3a); } else if i < k { assert(s[i] != 0x3a); }
+    }
+    if forall|j: int| 0 <= j < s.len() ==> #[trigger] s[j] != 0x3a {
+        if exists|i: int| first_colon(s, i) { let i = choose|i: int| first_colon(s, i); assert(s[i] != 0x3a); }
+    }
+}
